@@ -510,6 +510,13 @@ fn g_prim() -> BS<Prim> {
         3 => f64s.prop_map(Prim::F64),
         1 => any::<bool>().prop_map(Prim::Bool),
         2 => g_string(16).prop_map(Prim::Str),
+        // strings that look like the printed notation of something (a constructor that "helps" would change them)
+        2 => (
+            proptest::sample::select(vec!["#:", ":", "#", "'", "\"", "(", "#\\", "?", "|", "#%", "r#", " ", "", "#u8(", "#t", "nil", "-", "+", ".", "1", "0x", "#x", "\\", ";", ",", ",@", "`", "[", "\u{feff}"]),
+            "[a-z]{0,4}",
+            proptest::sample::select(vec![":", "\"", ")", "|", " ", "", "]", "\n", "#", ".", "\\", "\u{0}"]),
+        )
+            .prop_map(|(a, w, b)| Prim::Str(format!("{}{}{}", a, w, b))),
     ]
     .boxed()
 }
